@@ -2,12 +2,45 @@
 from harness import enc
 
 
-def mk_ann(tb, recs, uri=None, modality=None):
-    """build by successive insertions, in the given order"""
-    from pyannote.core import Annotation
-    a = Annotation(uri=uri, modality=modality)
+def _prime_all(a):
+    a.labels()
+    a.get_timeline(copy=False)
+    for l in a.labels():
+        a.label_timeline(l, copy=False)
+
+
+def cache_mode(recs):
+    """deterministic function of the records: which cache state the built annotation is left in"""
+    h = 0
     for s, t, l in recs:
+        h = (h * 31 + 7 * s[0] + 13 * s[1] + len(str(t)) + 3 * len(str(l))) % 1000003
+    return (h + len(recs)) % 4
+
+
+def mk_ann(tb, recs, uri=None, modality=None, mode=None):
+    """build by successive insertions, in the given order (so the content and every insertion order
+    are those of `recs`), leaving the caches in one of four states chosen from the records:
+    0 never read; 1 fully read (clean caches); 2 first half read, second half inserted afterwards
+    (stale timeline cache, dirty labels); 3 fully read with an extra segment that is then deleted
+    (stale timeline cache and a cached label that no longer occurs)."""
+    from pyannote.core import Annotation
+    mode = cache_mode(recs) if mode is None else mode
+    a = Annotation(uri=uri, modality=modality)
+    half = len(recs) // 2 if mode == 2 else len(recs)
+    for s, t, l in recs[:half]:
         a[tb.S(s), t] = l
+    if mode == 2:
+        _prime_all(a)
+        for s, t, l in recs[half:]:
+            a[tb.S(s), t] = l
+    elif mode == 1:
+        _prime_all(a)
+    elif mode == 3:
+        far = max([abs(x) for s, _, _ in recs for x in s] + [0]) + 1000
+        dummy = tb.S([far, far + 7])
+        a[dummy, "zz_dummy_track"] = "zz_dummy_label"
+        _prime_all(a)
+        del a[dummy]
     return a
 
 
